@@ -6,7 +6,8 @@
   (`precOf o = 0`); documents as produced by the readers on the left (`rawDoc`), list documents on
   the right, unique keys (`wf`), finite numbers, no negative zero.
   Trusted / assumed facts, always explicit hypotheses:
-    `FloatEq0`  (IEEE-754: two finite doubles at distance ≤ +0 have the same bits or are both zeros),
+    `FloatEq0`  (JdProofs.Common; IEEE-754: two finite doubles other than `-0` at distance ≤ +0 have
+                 the same bits),
     `DE.HashOK` (no FNV collision between non-equal subterms) — only for "empty diff ⇒ equal", strict.
   Unfolding lemmas and the induction principle live in the namespace `Jd.DE` (copies, generalised to
   either strategy, of the ones in JdProofs.DiffPatchList, which this file does not import).
@@ -15,36 +16,12 @@ import JdModel
 import JdSpec
 import JdProofs.EqualsList
 import JdProofs.LcsProofs
+import JdProofs.Common
 
 namespace Jd
 open Jd.Spec
 
 /-! ## 0. the domain -/
-
-/-- bit pattern of `-0.0` -/
-def negZeroBits : UInt64 := 0x8000000000000000
-
-mutual
-/-- no number of the document is the negative zero -/
-def Json.noNegZero : Json → Bool
-  | .num b => b != negZeroBits
-  | .arr _ xs => noNegZeroList xs
-  | .obj kvs => noNegZeroKvs kvs
-  | _ => true
-def noNegZeroList : List Json → Bool
-  | [] => true
-  | x :: r => x.noNegZero && noNegZeroList r
-def noNegZeroKvs : List (String × Json) → Bool
-  | [] => true
-  | (_, v) :: r => v.noNegZero && noNegZeroKvs r
-end
-
-/-- IEEE-754 fact taken as a hypothesis (`numWithin` is opaque to the kernel): for finite `x y`,
-    `|x - y| ≤ +0` holds only when `x` and `y` are the same real number, i.e. they have the same bit
-    pattern or are both zeros (of either sign). -/
-def FloatEq0 : Prop :=
-  ∀ x y : UInt64, finiteBits x = true → finiteBits y = true → numWithin 0 x y = true →
-    x = y ∨ ((x = 0 ∨ x = negZeroBits) ∧ (y = 0 ∨ y = negZeroBits))
 
 /-- the documents of the theorems -/
 structure Dom (x : Json) : Prop where
@@ -121,36 +98,6 @@ theorem DomK.lookup {kvs : List (String × Json)} (h : DomK kvs) {k : String} {v
     split at hl
     · cases hl; exact h.1
     · exact ih h.2 hl
-
-mutual
-theorem rawDoc_listDoc : ∀ (a : Json), a.rawDoc = true → a.listDoc = true
-  | .void, _ => rfl
-  | .null, _ => rfl
-  | .bool _, _ => rfl
-  | .num _, _ => rfl
-  | .str _, _ => rfl
-  | .arr t xs, h => by
-    simp only [Json.rawDoc, Bool.and_eq_true] at h
-    simp only [Json.listDoc, Bool.and_eq_true, Bool.or_eq_true]
-    exact ⟨.inl h.1, rawDocList_listDocList xs h.2⟩
-  | .obj kvs, h => by
-    simp only [Json.rawDoc] at h
-    simp only [Json.listDoc]
-    exact rawDocKvs_listDocKvs kvs h
-theorem rawDocList_listDocList : ∀ (xs : List Json), rawDocList xs = true → listDocList xs = true
-  | [], _ => rfl
-  | x :: r, h => by
-    simp only [rawDocList, Bool.and_eq_true] at h
-    simp only [listDocList, Bool.and_eq_true]
-    exact ⟨rawDoc_listDoc x h.1, rawDocList_listDocList r h.2⟩
-theorem rawDocKvs_listDocKvs : ∀ (kvs : List (String × Json)), rawDocKvs kvs = true →
-    listDocKvs kvs = true
-  | [], _ => rfl
-  | (_, v) :: r, h => by
-    simp only [rawDocKvs, Bool.and_eq_true] at h
-    simp only [listDocKvs, Bool.and_eq_true]
-    exact ⟨rawDoc_listDoc v h.1, rawDocKvs_listDocKvs r h.2⟩
-end
 
 /-! ## 1. objects with unique sorted keys -/
 
@@ -301,13 +248,7 @@ theorem num_eq_of_within (F : FloatEq0) {x y : UInt64} (hx : finiteBits x = true
     (hy : finiteBits y = true) (nx : (x != negZeroBits) = true) (ny : (y != negZeroBits) = true)
     (h : numWithin 0 x y = true) : x = y := by
   simp only [bne_iff_ne, ne_eq] at nx ny
-  rcases F x y hx hy h with e | ⟨h1, h2⟩
-  · exact e
-  · rcases h1 with h1 | h1
-    · rcases h2 with h2 | h2
-      · rw [h1, h2]
-      · exact absurd h2 ny
-    · exact absurd h1 nx
+  exact F.eq_of_within0 x y hx hy nx ny h
 
 mutual
 /-- `Equals` implies equal hash codes on the domain (list mode, no precision) -/
@@ -1053,28 +994,26 @@ theorem diff_list_vs_array_nonempty (m : Bool) :
   ⟨by simp [equals, effTag, Json.dispatch, dispatchTag, equalsList],
    DE.diffNode_arr_other_ne (o := []) rfl [] _ rfl (.inr ⟨rfl, [], rfl⟩) m []⟩
 
-/-- Negative zero (known finding D5b), relative to the IEEE fact `|0 - (-0)| ≤ +0`, which the
-    kernel cannot evaluate (`numWithin` is an opaque `Float` computation; see the `#eval` below):
-    `[0]` and `[-0]` are `Equals`, but their elements have different hash codes, so the diff is not
-    empty. -/
-theorem negZero_counterwitness (hz : numWithin 0 0 negZeroBits = true) :
+/-- Negative zero (former known finding D5b, repaired in the Go code: `0` and `-0` now hash alike).
+    Relative to the IEEE fact `|0 - (-0)| ≤ +0`, which the kernel cannot evaluate (`numWithin` is an
+    opaque `Float` computation; see the `#eval` below), `[0]` and `[-0]` are `Equals`; their elements
+    now have the same hash code, so the diff IS empty: this pair is no longer a counter-witness. (The
+    theorems above keep the hypothesis `noNegZero`, which is now stronger than necessary, because
+    `FloatEq0` says nothing about the bit pattern of `-0`.) -/
+theorem negZero_after_fix (hz : numWithin 0 0 negZeroBits = true) :
     equals [] (.arr .raw [.num 0]) (.arr .raw [.num negZeroBits]) = true ∧
-      diffM [] (.arr .raw [.num 0]) (.arr .raw [.num negZeroBits]) ≠ [] := by
-  refine ⟨by simp [equals, effTag, Json.dispatch, dispatchTag, equalsList, precOf, hz], ?_⟩
-  have hne : hashCode [] (.num 0) ≠ hashCode [] (.num negZeroBits) := by decide
-  have hs : sameContainerType [] (.num 0) (.num negZeroBits) = false := by
-    simp [sameContainerType, Json.dispatch]
+      hashCode [] (.num 0) = hashCode [] (.num negZeroBits) ∧
+      diffM [] (.arr .raw [.num 0]) (.arr .raw [.num negZeroBits]) = [] := by
+  have hh : hashCode [] (.num 0) = hashCode [] (.num negZeroBits) := by decide
+  refine ⟨by simp [equals, effTag, Json.dispatch, dispatchTag, equalsList, precOf, hz], hh, ?_⟩
+  have hl : hashList [] [Json.num 0] = hashList [] [Json.num negZeroBits] := by
+    simp only [hashList, hh]
   unfold diffM
   rw [show isMerge [] = false from rfl,
     DE.diffNode_arr_arr (o := []) rfl _ _ rfl rfl (.inl rfl) false []]
   simp only [Bool.false_eq_true, if_false]
-  generalize lcsValues (hashList [] [Json.num 0]) (hashList [] [Json.num negZeroBits]) = c
-  rw [DE.diffRest_cons]
-  cases hA : DE.atC [] (.num 0) c <;> cases hB : DE.atC [] (.num negZeroBits) c
-  · simp [hs, DE.diffRest_nilA, accHunk]
-  · simp [DE.diffRest_nilA, accHunk]
-  · simp [DE.diffRest_nilB, accHunk]
-  · exact absurd (DE.atC_both_hash hA hB) hne
+  rw [← hl, lcsValues_self]
+  exact diffRest_nil_of_hashList_eq [] [] _ _ hl 0 0 .void
 
 /-- Precision (known finding D5a), relative to two IEEE facts the kernel cannot evaluate: whenever
     two numbers are within `eps` of each other but not within `+0` (e.g. `eps = 0.5`, `x = 1`,
@@ -1090,13 +1029,14 @@ theorem precision_counterwitness (eps x y : UInt64) (h1 : numWithin eps x y = tr
   rw [diffCommon_nil_iff] at hd
   simp [equals, precOf, h0] at hd
 
-/-! The three counter-witnesses, evaluated by the runtime (which does evaluate `Float`):
+/-! The two counter-witnesses and the former one (negative zero), evaluated by the runtime (which
+    does evaluate `Float`):
     each line prints `(Equals, number of hunks of the diff)`. -/
 
 -- Precision (known finding D5a): 1 and 1 + 2⁻⁵² are equal within 0.5, the diff ignores Precision
 #eval (equals [.prec 0x3FE0000000000000] (.num 0x3FF0000000000000) (.num 0x3FF0000000000001),
   (diffM [.prec 0x3FE0000000000000] (.num 0x3FF0000000000000) (.num 0x3FF0000000000001)).length)
--- negative zero (known finding D5b)
+-- negative zero (former known finding D5b, repaired: the diff is now empty)
 #eval (equals [] (.arr .raw [.num 0]) (.arr .raw [.num negZeroBits]),
   (diffM [] (.arr .raw [.num 0]) (.arr .raw [.num negZeroBits])).length)
 -- typed list against plain array (model only)
@@ -1116,7 +1056,7 @@ theorem precision_counterwitness (eps x y : UInt64) (h1 : numWithin eps x y = tr
 #print axioms diffM_nil_iff_equals
 #print axioms diffM_nil_iff_equals_merge
 #print axioms diff_list_vs_array_nonempty
-#print axioms negZero_counterwitness
+#print axioms negZero_after_fix
 #print axioms precision_counterwitness
 
 end Jd
